@@ -403,6 +403,45 @@ def prefix_b(out, tier, scratch, rng):
     out.cov(prefixb_exhaustive_states=res.distinct, prefixb_traces_accepted=acc, prefixb_traces_rejected=rej)
 
 
+def start_pos_probe(out, items, rng):
+    """tokenize(start_pos=(line, column)): the diff parser (and callers that tokenize a fragment) rely on it.  For
+    single-line texts the stream with a shifted start must be the unshifted stream (whose positions TLC has checked
+    against the text) with every position moved by the offset; indentation tokens, which legitimately react to the
+    faked column, are left out of the comparison."""
+    from parso.python.tokenize import tokenize
+    from parso.utils import parse_version_string
+    from harness import record
+    LAYOUT = ('INDENT', 'DEDENT', 'ERROR_DEDENT')
+    cand = [it for it in items if it[1] and '\n' not in it[1] and '\r' not in it[1] and not it[1].startswith('\ufeff')
+            and '\f' not in it[1]]
+    cand = rng.sample(cand, min(len(cand), 4000))
+    n = 0
+    for tid, text, ver, origin in cand:
+        for (dl, dc) in ((0, 3), (4, 7)):
+            vi = parse_version_string(ver)
+            try:
+                base = [(t.type.name, t.string, t.start_pos, t.prefix) for t in tokenize(text, version_info=vi)
+                        if t.type.name not in LAYOUT]
+                moved = [(t.type.name, t.string, t.start_pos, t.prefix)
+                         for t in tokenize(text, version_info=vi, start_pos=(1 + dl, dc)) if t.type.name not in LAYOUT]
+            except Exception as e:  # noqa
+                out.violation('NeverFails|' + record.exc_key(e), 'TokenStream.NeverFails:raised',
+                              {'text': text, 'version': ver, 'start_pos': [1 + dl, dc]},
+                              {'kind': 'tokens', 'trace': {'text': text, 'ver': ver}})
+                continue
+            n += 1
+            want = [(ty, st, (p[0] + dl, p[1] + dc), pre) for ty, st, p, pre in base]
+            if moved != want:
+                k = next((i for i, (a, b) in enumerate(zip(moved, want)) if a != b), min(len(moved), len(want)))
+                out.violation('TruePos:shifted-start', 'TokenStream.TruePos:shifted-start',
+                              {'text': text, 'version': ver, 'start_pos': [1 + dl, dc],
+                               'got': list(moved[k]) if k < len(moved) else None,
+                               'want': list(want[k]) if k < len(want) else None},
+                              {'kind': 'tokens', 'trace': {'text': text, 'ver': ver}})
+                break
+    out.cov(start_pos_probes=n)
+
+
 def classify(rej):
     """cause key of a rejected observation"""
     r = rej['reject']
@@ -452,6 +491,7 @@ def run(tier):
             out.sample(s)
         out.assumptions += ['TLC and the JSON recorder layer are trusted; recorders log values only',
                             'positions: only \\n, \\r\\n, \\r are line breaks, a leading BOM has zero width']
+        start_pos_probe(out, items, rng)
         tokenizer_b(out, tier, scratch, rng)
         fstring_b(out, tier, scratch, rng)
         contstr_b(out, tier, scratch, rng)
